@@ -18,7 +18,7 @@ BUDGET = {'quick': 420, 'thorough': 1800}
 SOURCES = ['src/dtaidistance/clustering/kmeans.py', 'src/dtaidistance/clustering/medoids.py', 'src/dtaidistance/dtw_barycenter.py', 'src/dtaidistance/dtw.py']
 FUNCTIONS = ['KMeans.__init__/fit(use_parallel=False)', 'KMeans.kmeansplusplus_centers', 'kmeans._distance_with_params, _dba_loop_with_params', 'dtw_barycenter.dba_loop / dba']
 BOUNDS = {'quick': {'n series': '3', 'series length': '1..2 (max_it = 1: length 1)', 'k': '2', 'max_it': '0, 1', 'max_dba_it': '1', 'initialisation': 'random, k-means++ (sample size 1; max_it = 0)',
-                    'drop_stddev': 'None, 1', 'thr': '1e-4 and 0.5', 'dists_options': 'none; window=1, symbolic penalty (lengths 2,1,1 / 1,1,1); psi=1 (lengths 2,2,2)'},
+                    'drop_stddev': 'None, 1', 'thr': '1e-4 and 0.5', 'dists_options': 'none; window=1, symbolic penalty (lengths 2,1,1 / 1,1,1); psi=1 (lengths 2,2,2; every 5th combination of initial random draws; plus all draws with two of the series pinned to [0,0] and [3,3])'},
           'thorough': {'n series': '3..4', 'series length': '1..2', 'k': '2', 'max_it': '0, 1, 2', 'initialisation': 'random, k-means++ (sample sizes 1, 2)'}}
 OUTSIDE = ['max_it above the bound', 'use_parallel=True (multiprocessing)', 'use_c (the C routines are tied to the Python ones by C02/C12)', 'nb_prob_samples',
            'k-medoids initialisation (PyClustering)', 'floating point rounding']
@@ -30,12 +30,12 @@ EXPLANATION = 'bounded symbolic model checking of the k-means loop, solver = z3'
 
 def tasks(tier, seed):
     ts = []
-    def add(lens, init, max_it, thr, drop, dopts='none'):
+    def add(lens, init, max_it, thr, drop, dopts='none', every=1, fixed=None):
         n = len(lens)
         ranges = [n, n - 1, n, n] if init == 'random' else [n, n]
-        for draws in itertools.product(*[range(r_) for r_ in ranges]):
+        for draws in list(itertools.product(*[range(r_) for r_ in ranges]))[::every]:
             ts.append({'harness': 'fit/%s/it%d' % (init, max_it) + ('' if dopts == 'none' else '/' + dopts), 'lens': lens, 'init': init, 'max_it': max_it,
-                       'thr': thr, 'drop': drop, 'dopts': dopts, 'draws': list(draws), 'est': 20 ** (max_it + 1) * sum(lens)})
+                       'thr': thr, 'drop': drop, 'dopts': dopts, 'draws': list(draws), 'fixed': fixed, 'est': 20 ** (max_it + 1) * sum(lens)})
     for lens in ([1, 1, 1], [2, 1, 1]) + (([2, 2, 1], [1, 1, 1, 1]) if tier == 'thorough' else ()):
         for init in ('random', 'kmeanspp'):
             add(lens, init, 0, 1e-4, None)
@@ -48,7 +48,10 @@ def tasks(tier, seed):
     add([2, 1, 1], 'random', 0, 1e-4, None, 'window1')
     add([2, 1, 1], 'random', 0, 1e-4, None, 'penalty')
     add([1, 1, 1], 'random', 1, 0.5, None, 'penalty')
-    add([2, 2, 2], 'random', 0, 1e-4, None, 'psi1')
+    add([2, 2, 2], 'random', 0, 1e-4, None, 'psi1', every=(5 if tier == 'quick' else 1))   # quick: every 5th initial draw
+    # two series pinned to constants, the third symbolic: few paths, so it stays cheap when the assignment code grows branches
+    add([2, 2, 2], 'random', 0, 1e-4, None, 'psi1', fixed={'0': [0.0, 0.0], '1': [3.0, 3.0]})
+    add([2, 2, 2], 'random', 0, 1e-4, None, 'psi1', fixed={'1': [0.0, 0.0], '2': [3.0, 3.0]})
     if tier == 'thorough':
         add([2, 2, 1], 'random', 0, 1e-4, None, 'window1')
         add([2, 2, 2], 'kmeanspp', 0, 1e-4, None, 'psi1')
@@ -127,8 +130,12 @@ def run_task(cfg):
     n, k = len(lens), 2
     sv = [[z3.Real('s%d_%d' % (q, j)) for j in range(lens[q])] for q in range(n)]
     syms = {str(x): x for row in sv for x in row}
+    fixed = cfg.get('fixed') or {}
+    for q_, vals in fixed.items():
+        sv[int(q_)] = [smt.rv(v) for v in vals]
+    syms = {str(x): x for row in sv for x in row if z3.is_const(x) and x.decl().kind() == z3.Z3_OP_UNINTERPRETED}
     series = [pysym.objarray([SReal(x) for x in row]) for row in sv]
-    meta = {kk: cfg.get(kk) for kk in ('harness', 'lens', 'init', 'max_it', 'thr', 'drop', 'draws', 'dopts')}
+    meta = {kk: cfg.get(kk) for kk in ('harness', 'lens', 'init', 'max_it', 'thr', 'drop', 'draws', 'dopts', 'fixed')}
     assume = []
     dopts = cfg.get('dopts', 'none')
     PEN = z3.Real('P')
@@ -219,7 +226,8 @@ def replay(cex):
     inp = unj(cex['inputs'])
     lens, init, max_it, thr, drop = cex['lens'], cex['init'], cex['max_it'], cex['thr'], cex['drop']
     n, k = len(lens), 2
-    series = [np.array([float(inp.get('s%d_%d' % (q, j), 0)) for j in range(lens[q])]) for q in range(n)]
+    fixed = cex.get('fixed') or {}
+    series = [np.array([float(fixed[str(q)][j]) if str(q) in fixed else float(inp.get('s%d_%d' % (q, j), 0)) for j in range(lens[q])]) for q in range(n)]
     dopts = cex.get('dopts') or 'none'
     dists_options = {'none': {}, 'window1': {'window': 1}, 'penalty': {'penalty': float(inp.get('P', 0))}, 'psi1': {'psi': 1}}[dopts]
     worst = None
